@@ -199,6 +199,13 @@ def bidiagonalize_real_matrix_pair_with_symmetric_products(
     rank = dim
     while rank > 0 and tolerance.all_near_zero(base_diag[rank - 1, rank - 1], atol=atol):
         rank -= 1
+    # Singular values that are equal within tolerance must be treated together: when the cut falls
+    # between two of them (one just above atol, one just below), neither strategy rotates their
+    # common subspace as a whole.
+    while 0 < rank < dim and np.isclose(
+        base_diag[rank - 1, rank - 1], base_diag[rank, rank], rtol=rtol, atol=atol
+    ):
+        rank -= 1
     base_diag = base_diag[:rank, :rank]
 
     # Try diagonalizing the second matrix with the same factors as the first.
